@@ -190,7 +190,9 @@ def main():
         ev["coverage"]["programs"] = sum(r.get("programs", 0) for r in results)
         ev["coverage"]["disagreements_checked"] = sum(r.get("obligations", 0) for r in results)
     os.makedirs(os.path.join(VERIF, "evidence"), exist_ok=True)
-    json.dump(ev, open(os.path.join(VERIF, "evidence", f"{prop}.json"), "w"), indent=1)
+    evdir = os.path.join(VERIF, "evidence") if os.path.realpath(a.repo) == "/repo" else os.path.join(VERIF, ".cache", "scratch_evidence")
+    os.makedirs(evdir, exist_ok=True)
+    json.dump(ev, open(os.path.join(evdir, f"{prop}.json"), "w"), indent=1)
     print(f"{prop} [{tier}]: {discharged}/{obligations} obligations discharged "
           f"({', '.join('%s: %d/%d' % (k, v['discharged'], v['obligations']) for k, v in per_backend.items())}); "
           f"{len(bounded)} bounded stand-ins; {n_known} known findings; {len(violations)} violations; "
